@@ -96,6 +96,9 @@ def rust_canon(ty, real, structs):
 
 # ---------------------------------------------------------------------------------------------------
 # C side: clang's JSON AST of all public headers
+LINKNAME = {}  # C identifier -> linker symbol of its declaration
+
+
 def parse_c(repo, real, work):
     hdrs = sorted(os.listdir(os.path.join(repo, 'include', 'a')))
     src = os.path.join(work, 'all_%d.c' % real)
@@ -120,9 +123,14 @@ def parse_c(repo, real, work):
             if re.match(r'^[\w ]+\(\*\(', q):
                 ret = q[:q.index('(')].strip() + ' (*)()'  # function returning a pointer to function
             fns[d['name']] = (params, ret, d['type']['qualType'])
+            # the symbol the compiler emits references to (an __asm__ label on the declaration changes it)
+            if d.get('mangledName', d['name']) != d['name'] or d['name'] not in LINKNAME:
+                LINKNAME[d['name']] = d.get('mangledName', d['name'])
             CNAMES[d['name']] = [p.get('name', '') for p in d.get('inner', []) if p.get('kind') == 'ParmVarDecl']
         elif k == 'VarDecl' and d.get('name', '').startswith('a_'):
             vars_[d['name']] = d['type'].get('desugaredQualType', d['type']['qualType'])
+            if d.get('mangledName', d['name']) != d['name'] or d['name'] not in LINKNAME:
+                LINKNAME[d['name']] = d.get('mangledName', d['name'])
     # typedef table for return types / nested names that clang did not desugar
     tds = {}
     for d in ast['inner']:
@@ -440,6 +448,11 @@ def compare_decls(tag, rfns, rstatics, cfns, cvars, rstructs, real, tds, symbols
             continue
         if name not in symbols:
             viol.append(('decl:not_defined:%s' % name, '%s: `%s` is declared in an extern "C" block but the library objects do not define it' % (tag, name)))
+        if LINKNAME.get(name, name) != name:
+            # C callers of `name` are linked to another symbol than the one the binding imports under that name: whatever is
+            # defined under the plain name is not the function the header declares
+            viol.append(('decl:linker_name:%s' % name, '%s: the header binds `%s` to the linker symbol `%s`; the binding imports the symbol `%s`' % (tag, name, LINKNAME[name], name)))
+        facts.append('%s fn %s: linker symbol %s' % (tag, name, LINKNAME.get(name, name)))
         cp, cr, cq = cfns[name]
         rp = [rust_canon(p, real, rstructs) for p in params]
         cpc = [c_canon(p, tds) for p in cp]
@@ -587,7 +600,7 @@ def run(args, log):
             'distinct_nontrivial': len(nontrivial) + value_distinct,
             'rule': 'complete enumeration of every #[repr(C)] struct (%d) and every extern "C" fn (%d) / static (%d) parsed from src/lib.rs, for both real widths: C probe (clang: sizeof/_Alignof/offsetof/sizeof(field)) vs Rust probe '
                     '(bare rustc on lib.rs + appended module: size_of/align_of/offset_of!/field sizes), positional field names, offsets, sizes and canonical machine types; prototypes from clang\'s JSON AST vs the Rust declarations (count, order, machine '
-                    'types, return type; for the order of same-typed parameters the parameter names of both sides, wherever they form the same set of distinct names) and nm on the objects compiled from src/*.c; plus Hypothesis-generated per-field values (seeded) written through C field assignments and read through Rust field reads, and vice versa. '
+                    'types, return type; for the order of same-typed parameters the parameter names of both sides, wherever they form the same set of distinct names) and nm on the objects compiled from src/*.c; the linker symbol of each C declaration (clang\'s mangled name: an __asm__ label on a prototype changes it) has to be the name the binding imports; plus Hypothesis-generated per-field values (seeded) written through C field assignments and read through Rust field reads, and vice versa. '
                     'non-trivial = struct with >= 2 distinct field types or function with >= 3 parameters, and every value round trip with >= 2 non-zero leaves; distinct = distinct declarations per width + distinct value tuples' % (len(rstructs), len(rfns), len(rstatics)),
             'samples': samples if samples else facts[:5],
             'facts_compared': len(facts), 'value_round_trips': value_cases, 'structs': sorted(rstructs.keys()), 'functions': len(rfns),
